@@ -5,6 +5,7 @@ import (
 	"flag"
 	"fmt"
 	"os"
+	"os/signal"
 	"path/filepath"
 	"regexp"
 	"runtime"
@@ -12,6 +13,7 @@ import (
 	"runtime/pprof"
 	"sort"
 	"strings"
+	"syscall"
 	"time"
 
 	"golang.org/x/tools/go/packages"
@@ -288,6 +290,13 @@ func cmdRun(args []string) int {
 		fatal(err.Error())
 	}
 	defer os.RemoveAll(scratch)
+	sigc := make(chan os.Signal, 1)
+	signal.Notify(sigc, syscall.SIGTERM, syscall.SIGINT)
+	go func() {
+		<-sigc
+		os.RemoveAll(scratch)
+		os.Exit(3)
+	}()
 
 	var results []*harnessResult
 	byMod := map[string][]harnessRef{}
